@@ -58,8 +58,10 @@ def sanitizer(unit):
     micro = "µ"
     # mugr = "\u00b5"
     mugr = "μ"
-    return unit.replace(" ", "").replace("mu", "u").\
-        replace(micro, "u").replace(mugr, "u")
+    unit = unit.replace(" ", "").replace(micro, "u").replace(mugr, "u")
+    while "mu" in unit:
+        unit = unit.replace("mu", "u")
+    return unit
 
 
 def is_si(unit):
